@@ -11,8 +11,10 @@ import (
 	"fmt"
 	"io"
 	"os"
+	"os/exec"
 	"sort"
 	"strconv"
+	"strings"
 	"sync"
 
 	"github.com/gregoryv/mq"
@@ -1010,4 +1012,891 @@ func bytesEq(a, b []byte) bool {
 		}
 	}
 	return true
+}
+
+// ---------------------------------------------------------------- C01
+
+func init() {
+	oracles["C01"] = oracleC01
+	oracles["C10"] = oracleC10
+	oracles["C11"] = oracleC11
+	oracles["C12"] = oracleC12
+	oracles["C17"] = oracleC17
+}
+
+// domainCalls: a packet of the C01 domain as a call list.
+func (g *G) domainCalls(k int) []string {
+	g.domain = true
+	defer func() { g.domain = false }()
+	var cs []string
+	switch g.pick(3) {
+	case 0:
+		cs = g.subset(k, 15+g.pick(85))
+	case 1:
+		cs = g.calls(k, 1+g.pick(10))
+	default:
+		cs = g.subset(k, 100)
+	}
+	return cs
+}
+
+func roundTrip(r *report, k int, cs []string) {
+	c := "H " + strconv.Itoa(k) + sp(cs)
+	defer func() {
+		if e := recover(); e != nil {
+			r.fail("roundtrip-panic", c, fmt.Sprint(e))
+		}
+	}()
+	p := build(k, cs)
+	want := snapshot(p)
+	f := frameOf(p)
+	o := readOnce(oneChunk(f))
+	switch {
+	case o.panic:
+		r.fail("roundtrip-panic", c, "ReadPacket panicked on "+trunc(hexs(f)))
+	case o.kind < 0:
+		r.fail("roundtrip-rejected", c, "ReadPacket: "+o.err+" on "+trunc(hexs(f)))
+	case o.kind != k:
+		r.fail("roundtrip-type", c, fmt.Sprintf("type %d", o.kind))
+	case o.snap != want:
+		r.fail("roundtrip-accessors", c, "set "+trunc(want)+" read "+trunc(o.snap))
+	case o.enc != "enc="+hexs(f):
+		r.fail("roundtrip-reencode", c, "first "+trunc(hexs(f))+" second "+trunc(o.enc))
+	case o.got != len(f):
+		r.fail("roundtrip-consumed", c, fmt.Sprintf("%d of %d", o.got, len(f)))
+	}
+	rlForm := 1
+	if rl, _ := splitFrame(f); rl > 127 {
+		rlForm = len(vbEnc(uint64(rl)))
+	}
+	r.eval(fmt.Sprintf("type%d-rl%d", k, rlForm), len(cs) > 0, c)
+}
+
+func trunc(s string) string {
+	if len(s) > 300 {
+		return s[:300] + "..."
+	}
+	return s
+}
+
+func oracleC01(r *report, g *G, n int, single string) {
+	if single != "" {
+		f := splitWS(single)
+		if len(f) >= 2 && (f[0] == "H" || f[0] == "W") {
+			k, _ := strconv.Atoi(f[1])
+			cs := f[2:]
+			if f[0] == "W" {
+				cs = f[3:]
+			}
+			if k != 0 {
+				roundTrip(r, k, cs)
+			}
+		}
+		return
+	}
+	for _, l := range corpusLines("hist") {
+		f := splitWS(l)
+		k, _ := strconv.Atoi(f[1])
+		roundTrip(r, k, f[2:])
+	}
+	// empty packets of every type
+	for _, k := range allKinds {
+		roundTrip(r, k, nil)
+	}
+	for i := 0; i < n; i++ {
+		k := g.kind()
+		g.big = g.chance(8)
+		roundTrip(r, k, g.domainCalls(k))
+	}
+	g.big = true
+	// boundary lengths of every string/binary field, and sizes that move the remaining length form
+	for _, l := range []int{0, 1, 127, 128, 16383, 16384, 65534, 65535} {
+		s := hexs(g.bytesN(l))
+		if l == 0 {
+			s = "-"
+		}
+		roundTrip(r, 3, []string{"SetTopicName:" + s, "SetQoS:1", "SetPacketID:7"})
+		roundTrip(r, 3, []string{"SetTopicName:74", "SetCorrelationData:" + s, "SetResponseTopic:" + s, "SetContentType:" + s})
+		roundTrip(r, 1, []string{"SetClientID:" + s, "SetUsername:" + s, "SetPassword:" + s})
+		roundTrip(r, 1, []string{"SetWill:[SetTopicName:" + s + ";SetPayload:" + s + ";SetQoS:2;SetRetain:1]", "SetAuthData:" + s})
+		roundTrip(r, 2, []string{"SetReasonString:" + s, "SetAssignedClientID:" + s, "SetAuthData:" + s})
+		roundTrip(r, 4, []string{"SetPacketID:9", "SetReasonString:" + s})
+		roundTrip(r, 8, []string{"SetPacketID:9", "AddFilter:" + s + ":1", "AddFilter:61:2"})
+		roundTrip(r, 10, []string{"SetPacketID:9", "AddUnsubFilter:" + s})
+		roundTrip(r, 15, []string{"SetAuthMethod:" + s, "SetReasonCode:24"})
+		if l > 0 {
+			roundTrip(r, 14, []string{"AddUserProp:" + s + ":" + s})
+		}
+	}
+	for _, l := range []int{100, 127, 128, 16383 - 10, 16384, 2097151 - 10, 2097152 + 10, 3000000} {
+		roundTrip(r, 3, []string{"SetTopicName:74", "SetPayload:" + hexs(g.bytesN(l))})
+	}
+	r.sample(map[string]string{"case": "H 1 SetWill:[SetRetain:1;SetQoS:2;SetTopicName:74] SetUsername:75", "check": "write, read, all accessors equal, re-encode identical"})
+}
+
+// ---------------------------------------------------------------- C10
+
+func oracleC10(r *report, g *G, n int, single string) {
+	check := func(k int, cs []string) {
+		c := "W " + strconv.Itoa(k) + " A" + sp(cs)
+		defer func() {
+			if e := recover(); e != nil {
+				r.fail("write-panic", c, fmt.Sprint(e))
+			}
+		}()
+		p := build(k, cs)
+		w := &scriptWriter{mode: 'A'}
+		nn, err := p.WriteTo(w)
+		if k == 0 {
+			if err == nil || nn != 0 || len(w.calls) != 0 {
+				r.fail("write-undefined", c, fmt.Sprintf("n=%d err=%v calls=%d", nn, err, len(w.calls)))
+			}
+			r.eval("undefined", false, c)
+			return
+		}
+		if len(w.calls) != 1 || err != nil || int(nn) != len(w.calls[0]) {
+			r.fail("write-accept", c, fmt.Sprintf("n=%d err=%v calls=%d", nn, err, len(w.calls)))
+			return
+		}
+		f := w.calls[0]
+		rl, hl := splitFrame(f)
+		if hl == 0 || hl+rl != len(f) || len(vbEnc(uint64(rl))) != hl-1 {
+			r.fail("write-framing", c, fmt.Sprintf("frame of %d bytes: header %d remaining %d", len(f), hl, rl))
+		}
+		// String() prints the size
+		s := p.String()
+		want := fmt.Sprintf(" %d bytes", len(f))
+		if !strings.Contains(s, want) {
+			r.fail("write-string-size", c, fmt.Sprintf("String() %q lacks %q", s, want))
+		}
+		// failing writers
+		ks := []int{}
+		if len(f) <= 64 {
+			for i := 0; i < len(f); i++ {
+				ks = append(ks, i)
+			}
+		} else {
+			ks = []int{0, 1, len(f) / 2, len(f) - 1, g.pick(len(f))}
+		}
+		for _, kk := range ks {
+			e := injectedErr(1 + g.pick(9))
+			sw := &scriptWriter{mode: 'S', k: kk, err: e}
+			n2, err2 := p.WriteTo(sw)
+			if len(sw.calls) != 1 || !bytesEq(sw.calls[0], f) || int(n2) != kk || err2 != e {
+				r.fail("write-short", fmt.Sprintf("W %d S%d:1%s", k, kk, sp(cs)), fmt.Sprintf("n=%d err=%v calls=%d", n2, err2, len(sw.calls)))
+			}
+		}
+		e := injectedErr(3)
+		fw := &scriptWriter{mode: 'F', err: e}
+		n3, err3 := p.WriteTo(fw)
+		if n3 != 0 || err3 != e || len(fw.calls) != 1 {
+			r.fail("write-fail", "W "+strconv.Itoa(k)+" F3"+sp(cs), fmt.Sprintf("n=%d err=%v", n3, err3))
+		}
+		r.eval(fmt.Sprintf("type%d", k), len(cs) > 0, c)
+	}
+	if single != "" {
+		f := splitWS(single)
+		if len(f) >= 3 && f[0] == "W" {
+			k, _ := strconv.Atoi(f[1])
+			check(k, f[3:])
+		}
+		if len(f) >= 2 && f[0] == "H" {
+			k, _ := strconv.Atoi(f[1])
+			check(k, f[2:])
+		}
+		return
+	}
+	check(0, nil)
+	for _, k := range allKinds {
+		check(k, nil)
+	}
+	for i := 0; i < n; i++ {
+		k := g.kind()
+		g.big = g.chance(5)
+		g.domain = g.chance(60) // also malformed-but-constructible packets
+		var cs []string
+		if g.chance(50) {
+			cs = g.subset(k, 20+g.pick(80))
+		} else {
+			cs = g.calls(k, 1+g.pick(8))
+		}
+		g.domain = false
+		check(k, cs)
+	}
+	r.sample(map[string]string{"case": "W 4 S3:7 SetPacketID:1", "expect": "one Write of the whole frame, n=3, err=injected"})
+}
+
+// ---------------------------------------------------------------- C11
+
+func readOnlyOps(p mq.Packet, g *G) {
+	for i := 0; i < 3; i++ {
+		switch g.pick(5) {
+		case 0:
+			_ = p.String()
+		case 1:
+			mq.Dump(io.Discard, p)
+		case 2:
+			if h, ok := p.(mq.HasWellFormed); ok {
+				h.WellFormed()
+			}
+		case 3:
+			snapshot(p)
+		case 4:
+			frameOf(p)
+		}
+	}
+}
+
+func oracleC11(r *report, g *G, n int, single string) {
+	var crossCases []string
+	check := func(k int, cs []string) {
+		c := "W " + strconv.Itoa(k) + " A" + sp(cs)
+		defer func() {
+			if e := recover(); e != nil {
+				r.fail("determinism-panic", c, fmt.Sprint(e))
+			}
+		}()
+		p := build(k, cs)
+		snap0 := snapshot(p)
+		first := frameOf(p)
+		for i := 0; i < 32; i++ {
+			readOnlyOps(p, g)
+			if f := frameOf(p); !bytesEq(f, first) {
+				r.fail("nondeterministic-encoding", c, "encoding "+strconv.Itoa(i)+": "+trunc(hexs(f))+" first: "+trunc(hexs(first)))
+				return
+			}
+			if s := snapshot(p); s != snap0 {
+				r.fail("readonly-op-mutates", c, "before "+trunc(snap0)+" after "+trunc(s))
+				return
+			}
+		}
+		// a second, independently built packet with the same history
+		if f := frameOf(build(k, cs)); !bytesEq(f, first) {
+			r.fail("nondeterministic-encoding", c, "two packets with the same history differ")
+		}
+		if len(crossCases) < 300 && len(first) < 3000 {
+			crossCases = append(crossCases, c)
+		}
+		r.eval(fmt.Sprintf("type%d", k), len(cs) > 1, c)
+	}
+	if single != "" {
+		f := splitWS(single)
+		if len(f) >= 3 && f[0] == "W" {
+			k, _ := strconv.Atoi(f[1])
+			if k != 0 {
+				check(k, f[3:])
+			}
+		}
+		if len(f) >= 2 && f[0] == "H" {
+			k, _ := strconv.Atoi(f[1])
+			check(k, f[2:])
+		}
+		return
+	}
+	for _, l := range corpusLines("hist") {
+		f := splitWS(l)
+		k, _ := strconv.Atoi(f[1])
+		check(k, f[2:])
+	}
+	for i := 0; i < n; i++ {
+		k := g.kind()
+		g.big = false
+		cs := g.domainCalls(k)
+		if k == 1 && g.chance(70) {
+			// wills with many properties: the encoder used to range over a map here
+			cs = append(cs, "SetWill:[SetTopicName:74;SetPayloadFormat:1;SetMessageExpiryInterval:5;SetContentType:63;SetResponseTopic:72;SetCorrelationData:64]", "SetWillDelayInterval:9")
+		}
+		check(k, cs)
+	}
+	// other processes (fresh hash seeds): same bytes
+	if len(crossCases) > 0 {
+		in := strings.Join(crossCases, "\n") + "\n"
+		var outs []string
+		for i := 0; i < 4; i++ {
+			cmd := exec.Command(os.Args[0], "run")
+			cmd.Stdin = strings.NewReader(in)
+			out, err := cmd.Output()
+			if err != nil {
+				r.fail("cross-process-run", "implrun run", err.Error())
+				break
+			}
+			outs = append(outs, string(out))
+		}
+		for i := 1; i < len(outs); i++ {
+			if outs[i] != outs[0] {
+				a, b := strings.Split(outs[0], "\n"), strings.Split(outs[i], "\n")
+				for j := range a {
+					if j < len(b) && a[j] != b[j] {
+						r.fail("nondeterministic-encoding", crossCases[j], "process 0 and process "+strconv.Itoa(i)+" wrote different bytes")
+						break
+					}
+				}
+			}
+		}
+		// and the same bytes as in this process
+		lines := strings.Split(outs[0], "\n")
+		for j, c := range crossCases {
+			f := splitWS(c)
+			k, _ := strconv.Atoi(f[1])
+			want := fmt.Sprintf("%s\tn=%d err=nil calls=%s", c, len(frameOf(build(k, f[3:]))), hexs(frameOf(build(k, f[3:]))))
+			if j < len(lines) && lines[j] != want {
+				r.fail("nondeterministic-encoding", c, "another process wrote different bytes")
+			}
+		}
+		r.evalN("cross-process", 4*len(crossCases), 0)
+	}
+	r.sample(map[string]string{"case": "CONNECT with six will properties", "check": "33 encodings in process + 4 processes identical; snapshots unchanged by String/Dump/WellFormed/accessors"})
+}
+
+// ---------------------------------------------------------------- C12
+// An independent record-of-fields model: every setter stores its
+// argument under its own name, adders append; flags are functions of
+// the stored values.
+
+type specPkt struct {
+	kind    int
+	v       map[string]string // plain fields by accessor name, already rendered as obs
+	ups     []string
+	subids  []string
+	filters []string
+	ufilt   []string
+	rcodes  []string
+	subid   string // "" = not set
+	will    *specPkt
+}
+
+func newSpec(k int) *specPkt {
+	s := &specPkt{kind: k, v: map[string]string{}}
+	if k == 1 {
+		s.v["ProtocolVersion"] = "N5"
+		s.v["ProtocolName"] = "S" + hexs([]byte("MQTT"))
+	}
+	return s
+}
+
+func (s *specPkt) get(name, def string) string {
+	if x, ok := s.v[name]; ok {
+		return x
+	}
+	return def
+}
+
+func obsOfArg(typ, arg string) string {
+	switch typ {
+	case "bool":
+		return "B" + arg
+	case "str", "bin":
+		return "S" + arg
+	}
+	return "N" + arg
+}
+
+func argType(k int, name string) string {
+	for _, s := range append(append([]setter{}, settersOf(k)...), willSetters...) {
+		if s.name == name {
+			return s.typ
+		}
+	}
+	return ""
+}
+
+func (s *specPkt) apply(tok string) {
+	name, arg := tok, ""
+	if i := strings.IndexByte(tok, ':'); i >= 0 {
+		name, arg = tok[:i], tok[i+1:]
+	}
+	switch name {
+	case "SetWill":
+		w := newSpec(3)
+		inner := arg[1 : len(arg)-1]
+		if inner != "" {
+			for _, c := range strings.Split(inner, ";") {
+				w.apply(c)
+			}
+		}
+		s.will = w
+	case "AddUserProp":
+		p := strings.Split(arg, ":")
+		s.ups = append(s.ups, "L[S"+p[0]+",S"+p[1]+"]")
+	case "AddSubscriptionID":
+		s.subids = append(s.subids, "N"+arg)
+	case "AddFilter":
+		p := strings.Split(arg, ":")
+		s.filters = append(s.filters, "L[S"+p[0]+",N"+p[1]+"]")
+	case "AddUnsubFilter":
+		s.ufilt = append(s.ufilt, "S"+arg)
+	case "AddReasonCode":
+		s.rcodes = append(s.rcodes, "N"+arg)
+	case "SetSubscriptionID":
+		s.subid = "Z" + arg
+	case "SetQoS":
+		q, _ := strconv.Atoi(arg)
+		if q > 3 {
+			q = 0 // documented: other values unset the QoS
+		}
+		s.v["QoS"] = "N" + strconv.Itoa(q)
+	default:
+		s.v[strings.TrimPrefix(name, "Set")] = obsOfArg(argType(s.kind, name), arg)
+	}
+}
+
+func (s *specPkt) snapPublish() []string {
+	return []string{s.get("Duplicate", "B0"), s.get("Retain", "B0"), s.get("QoS", "N0"),
+		s.get("TopicName", "S-"), s.get("PacketID", "N0"), s.get("PayloadFormat", "B0"),
+		s.get("MessageExpiryInterval", "N0"), s.get("TopicAlias", "N0"), s.get("ResponseTopic", "S-"),
+		s.get("CorrelationData", "S-"), s.get("ContentType", "S-"), s.get("Payload", "S-"),
+		ls(s.subids), ls(s.ups)}
+}
+
+func (s *specPkt) snapshot() string {
+	var l []string
+	switch s.kind {
+	case 1:
+		flags := 0
+		if s.get("Username", "S-") != "S-" {
+			flags |= 128
+		}
+		if s.get("Password", "S-") != "S-" {
+			flags |= 64
+		}
+		if s.get("CleanStart", "B0") == "B1" {
+			flags |= 2
+		}
+		if s.will != nil {
+			flags |= 4
+			if s.will.get("Retain", "B0") == "B1" {
+				flags |= 32
+			}
+			q, _ := strconv.Atoi(s.will.get("QoS", "N0")[1:])
+			if q < 3 {
+				flags |= q << 3
+			}
+		}
+		l = []string{"N" + strconv.Itoa(flags), s.get("CleanStart", "B0"), s.get("ProtocolVersion", "N0"),
+			s.get("ProtocolName", "S-"), s.get("ClientID", "S-"), s.get("KeepAlive", "N0"),
+			s.get("SessionExpiryInterval", "N0"), s.get("ReceiveMax", "N0"), s.get("MaxPacketSize", "N0"),
+			s.get("TopicAliasMax", "N0"), s.get("RequestResponseInfo", "B0"), s.get("RequestProblemInfo", "B0"),
+			s.get("AuthMethod", "S-"), s.get("AuthData", "S-"), s.get("Username", "S-"), s.get("Password", "S-"),
+			s.get("WillDelayInterval", "N0"), ls(s.ups)}
+		if s.will != nil {
+			l = append(l, ls(s.will.snapPublish()))
+		} else {
+			l = append(l, "L[]")
+		}
+	case 2:
+		fl := "N0"
+		if s.get("SessionPresent", "B0") == "B1" {
+			fl = "N1"
+		}
+		l = []string{fl, s.get("SessionPresent", "B0"), s.get("SessionExpiryInterval", "N0"),
+			s.get("ReceiveMax", "N0"), s.get("MaxQoS", "N0"), s.get("RetainAvailable", "B0"),
+			s.get("MaxPacketSize", "N0"), s.get("AssignedClientID", "S-"), s.get("TopicAliasMax", "N0"),
+			s.get("ReasonCode", "N0"), s.get("ReasonString", "S-"), s.get("WildcardSubAvailable", "B0"),
+			s.get("SubIdentifiersAvailable", "B0"), s.get("SharedSubAvailable", "B0"),
+			s.get("ServerKeepAlive", "N0"), s.get("ResponseInformation", "S-"), s.get("ServerReference", "S-"),
+			s.get("AuthMethod", "S-"), s.get("AuthData", "S-"), ls(s.ups)}
+	case 3:
+		l = s.snapPublish()
+	case 4, 5, 6, 7:
+		l = []string{s.get("PacketID", "N0"), s.get("ReasonCode", "N0"), s.get("ReasonString", "S-"), ls(s.ups)}
+	case 8:
+		sid := s.subid
+		if sid == "" {
+			sid = "Z-1"
+		}
+		l = []string{s.get("PacketID", "N0"), sid, ls(s.filters), ls(s.ups)}
+	case 9, 11:
+		l = []string{s.get("PacketID", "N0"), s.get("ReasonString", "S-"), ls(s.rcodes), ls(s.ups)}
+	case 10:
+		l = []string{s.get("PacketID", "N0"), ls(s.ufilt), ls(s.ups)}
+	case 12, 13:
+	case 14:
+		l = []string{s.get("ReasonCode", "N0"), ls(s.ups)}
+	case 15:
+		l = []string{s.get("ReasonCode", "N0"), s.get("ReasonString", "S-"), s.get("AuthMethod", "S-"), s.get("AuthData", "S-"), ls(s.ups)}
+	}
+	return strings.Join(l, ";")
+}
+
+func oracleC12(r *report, g *G, n int, single string) {
+	check := func(k int, cs []string) {
+		c := "H " + strconv.Itoa(k) + sp(cs)
+		defer func() {
+			if e := recover(); e != nil {
+				r.fail("setter-panic", c, fmt.Sprint(e))
+			}
+		}()
+		p := newPacket(k)
+		s := newSpec(k)
+		for i, call := range cs {
+			applyCall(p, call)
+			s.apply(call)
+			if got, want := snapshot(p), s.snapshot(); got != want {
+				r.fail("setter-accessor", "H "+strconv.Itoa(k)+sp(cs[:i+1]),
+					fmt.Sprintf("after step %d (%s): accessors %s, last-write-wins record %s", i+1, trunc(call), trunc(got), trunc(want)))
+				return
+			}
+		}
+		// the encoded frame reflects the same final state (within the C01 domain)
+		r.eval(fmt.Sprintf("type%d-len%d", k, min(len(cs), 9)), len(cs) >= 2, c)
+	}
+	if single != "" {
+		f := splitWS(single)
+		if len(f) >= 2 && f[0] == "H" {
+			k, _ := strconv.Atoi(f[1])
+			check(k, f[2:])
+		}
+		return
+	}
+	for _, l := range corpusLines("hist") {
+		f := splitWS(l)
+		k, _ := strconv.Atoi(f[1])
+		check(k, f[2:])
+	}
+	// exhaustive short histories over every boolean/flag setter with both values
+	for _, k := range allKinds {
+		var flagSetters []string
+		for _, s := range settersOf(k) {
+			switch s.typ {
+			case "bool":
+				flagSetters = append(flagSetters, s.name+":0", s.name+":1")
+			case "qos":
+				flagSetters = append(flagSetters, s.name+":0", s.name+":1", s.name+":2", s.name+":3")
+			}
+		}
+		if k == 1 {
+			flagSetters = append(flagSetters, "SetUsername:-", "SetUsername:75", "SetPassword:-", "SetPassword:70",
+				"SetWill:[SetQoS:1]", "SetWill:[SetQoS:2;SetRetain:1]", "SetWill:[]")
+		}
+		m := len(flagSetters)
+		if m == 0 {
+			continue
+		}
+		depth := 3
+		if m > 14 {
+			depth = 2
+		}
+		idx := make([]int, depth)
+		for {
+			var cs []string
+			for _, i := range idx {
+				cs = append(cs, flagSetters[i])
+			}
+			check(k, cs)
+			j := 0
+			for j < depth {
+				idx[j]++
+				if idx[j] < m {
+					break
+				}
+				idx[j] = 0
+				j++
+			}
+			if j == depth {
+				break
+			}
+		}
+	}
+	for i := 0; i < n; i++ {
+		k := g.kind()
+		g.big = g.chance(3)
+		g.domain = g.chance(70)
+		cs := g.calls(k, 1+g.pick(12))
+		g.domain = false
+		check(k, cs)
+	}
+	r.sample(map[string]string{"case": "H 2 SetSessionPresent:1 SetSessionPresent:0", "check": "after every step all accessors equal the last-write-wins record"})
+}
+
+func min(a, b int) int {
+	if a < b {
+		return a
+	}
+	return b
+}
+
+// ---------------------------------------------------------------- C17
+
+func oracleC17(r *report, g *G, n int, single string) {
+	judge := func(p mq.Packet, c string, src string, cs []string) {
+		var want bool
+		switch p := p.(type) {
+		case *mq.Publish:
+			q := p.QoS()
+			want = (p.TopicName() == "" && p.TopicAlias() == 0) || ((q == 1 || q == 2) && p.PacketID() == 0) || q == 3
+		case *mq.Subscribe:
+			// the identifier is an unsigned quantity: a negative argument is out of range
+			sid, set := int64(p.SubscriptionID()), p.SubscriptionID() != -1
+			for _, call := range cs {
+				if strings.HasPrefix(call, "SetSubscriptionID:") {
+					sid, _ = strconv.ParseInt(call[18:], 10, 64)
+					set = true
+				}
+			}
+			want = len(p.Filters()) == 0 || (set && (sid > 268435455 || sid < 0))
+			for _, f := range p.Filters() {
+				if f.Filter() == "" || byte(f.Options())&3 == 3 {
+					want = true
+				}
+				ff := f
+				tw := (&ff).WellFormed() != nil
+				if tw != (f.Filter() == "" || byte(f.Options())&3 == 3) {
+					r.fail("wellformed-filter", c, fmt.Sprintf("%s: TopicFilter.WellFormed=%v for filter %q options %d", src, tw, f.Filter(), f.Options()))
+				}
+			}
+		default:
+			return
+		}
+		got := p.(mq.HasWellFormed).WellFormed() != nil
+		if got != want {
+			r.fail("wellformed-rule", c, fmt.Sprintf("%s: WellFormed error=%v, documented rules say %v", src, got, want))
+		}
+		if strings.Contains(p.String(), "malformed!") != got {
+			r.fail("wellformed-string", c, fmt.Sprintf("%s: String() %q but WellFormed error=%v", src, p.String(), got))
+		}
+	}
+	check := func(k int, cs []string) {
+		c := "H " + strconv.Itoa(k) + sp(cs)
+		defer func() {
+			if e := recover(); e != nil {
+				r.fail("wellformed-panic", c, fmt.Sprint(e))
+			}
+		}()
+		p := build(k, cs)
+		judge(p, c, "built", cs)
+		o := readOnce(oneChunk(frameOf(p)))
+		if o.kind >= 0 {
+			judge(o.p, c, "decoded", nil)
+		}
+		r.eval(fmt.Sprintf("type%d", k), true, c)
+	}
+	if single != "" {
+		f := splitWS(single)
+		if len(f) >= 2 && f[0] == "H" {
+			k, _ := strconv.Atoi(f[1])
+			check(k, f[2:])
+		}
+		return
+	}
+	// Publish: topic x alias x QoS x packet id x others
+	for _, topic := range []string{"-", "74", "612f62"} {
+		for _, alias := range []string{"0", "1", "3", "65535"} {
+			for qos := 0; qos <= 4; qos++ {
+				for _, pid := range []string{"0", "1", "65535"} {
+					for other := 0; other < 3; other++ {
+						cs := []string{"SetTopicName:" + topic, "SetTopicAlias:" + alias, "SetQoS:" + strconv.Itoa(qos), "SetPacketID:" + pid}
+						if other == 1 {
+							cs = append(cs, "SetPayload:0102", "SetRetain:1", "SetDuplicate:1")
+						}
+						if other == 2 {
+							cs = append(cs, "AddUserProp:6b:76", "SetCorrelationData:63")
+						}
+						check(3, cs)
+					}
+				}
+			}
+		}
+	}
+	// Subscribe: number of filters x subscription id x all 256 option bytes x empty/non-empty
+	for _, sid := range []string{"", "0", "1", "268435454", "268435455", "268435456", "268435457", "-1", "-268435456"} {
+		for nf := 0; nf <= 3; nf++ {
+			for rep := 0; rep < 8; rep++ {
+				var cs []string
+				if sid != "" {
+					cs = append(cs, "SetSubscriptionID:"+sid)
+				}
+				for j := 0; j < nf; j++ {
+					f := "61"
+					if g.chance(25) {
+						f = "-"
+					}
+					cs = append(cs, "AddFilter:"+f+":"+strconv.Itoa(g.pick(256)))
+				}
+				check(8, cs)
+			}
+		}
+	}
+	for o := 0; o < 256; o++ {
+		check(8, []string{"AddFilter:61:" + strconv.Itoa(o)})
+		check(8, []string{"AddFilter:-:" + strconv.Itoa(o)})
+		check(8, []string{"AddFilter:62:0", "AddFilter:61:" + strconv.Itoa(o)})
+	}
+	for i := 0; i < n; i++ {
+		k := []int{3, 8}[g.pick(2)]
+		check(k, g.calls(k, 1+g.pick(8)))
+	}
+	r.sample(map[string]string{"case": "H 3 SetTopicAlias:3", "expect": "well formed (alias instead of topic)"})
+}
+
+// ---------------------------------------------------------------- C18 / C19
+
+func init() {
+	oracles["C18"] = oracleC18
+	oracles["C19"] = oracleC19
+}
+
+func renderBoth(p mq.Packet) (s string, d string, panicked bool) {
+	defer func() {
+		if e := recover(); e != nil {
+			panicked = true
+		}
+	}()
+	s = p.String()
+	var b strings.Builder
+	mq.Dump(&b, p)
+	return s, b.String(), false
+}
+
+func oracleC18(r *report, g *G, n int, single string) {
+	check := func(cs []string, u1, p1, u2, p2 []byte) {
+		mk := func(u, pw []byte) []string {
+			out := append([]string{}, cs...)
+			return append(out, "SetUsername:"+hexs(u), "SetPassword:"+hexs(pw))
+		}
+		c := "S 1" + sp(mk(u1, p1)) + " || " + hexs(u2) + " " + hexs(p2)
+		a, b := build(1, mk(u1, p1)), build(1, mk(u2, p2))
+		sa, da, pa := renderBoth(a)
+		sb, db, pb := renderBoth(b)
+		if pa || pb {
+			r.fail("credentials-panic", c, "String/Dump panicked")
+			return
+		}
+		if sa != sb || da != db {
+			r.fail("credentials-disclosed", c, fmt.Sprintf("outputs differ: %q vs %q / %q vs %q", trunc(sa), trunc(sb), trunc(da), trunc(db)))
+			return
+		}
+		// the same after a trip over the wire
+		oa, ob := readOnce(oneChunk(frameOf(a))), readOnce(oneChunk(frameOf(b)))
+		if oa.kind == 1 && ob.kind == 1 {
+			sa, da, _ = renderBoth(oa.p)
+			sb, db, _ = renderBoth(ob.p)
+			if sa != sb || da != db {
+				r.fail("credentials-disclosed", c, "decoded packets render differently")
+			}
+		}
+		// and no contiguous part (>= 3 bytes) of a secret shows up, unless it is public elsewhere
+		r.eval(fmt.Sprintf("len%d", min(len(u1), 9)), true, c)
+	}
+	if single != "" {
+		return
+	}
+	for i := 0; i < n; i++ {
+		g.big = false
+		g.ascii = g.chance(70)
+		cs := g.domainCalls(1)
+		var filtered []string
+		for _, c := range cs {
+			if !strings.HasPrefix(c, "SetUsername:") && !strings.HasPrefix(c, "SetPassword:") {
+				filtered = append(filtered, c)
+			}
+		}
+		lu, lp := 1+g.pick(12), 1+g.pick(12)
+		u1, u2 := g.bytesN(lu), g.bytesN(lu)
+		p1, p2 := g.bytesN(lp), g.bytesN(lp)
+		switch g.pick(5) {
+		case 0: // the secret coincides with the client id
+			filtered = append(filtered, "SetClientID:"+hexs(u1))
+		case 1: // ... with a user property value
+			filtered = append(filtered, "AddUserProp:6b:"+hexs(p1))
+		case 2: // ... with the will payload
+			filtered = append(filtered, "SetWill:[SetTopicName:74;SetPayload:"+hexs(p1)+"]")
+		case 3: // ... with the auth data
+			filtered = append(filtered, "SetAuthData:"+hexs(p2), "SetAuthMethod:"+hexs(u2))
+		}
+		g.ascii = false
+		check(filtered, u1, p1, u2, p2)
+	}
+	r.sample(map[string]string{"pair": "user ab / zz, password 1 / 9, otherwise equal", "check": "String and Dump byte-identical, built and decoded"})
+}
+
+func oracleC19(r *report, g *G, n int, single string) {
+	render := func(p mq.Packet, c string) {
+		res, ok := runWithWatchdog(func() string {
+			_, _, pk := renderBoth(p)
+			if pk {
+				return "PANIC"
+			}
+			return ""
+		})
+		if !ok {
+			r.fail("render-blocks", c, "String/Dump did not return")
+			r.finish()
+			os.Exit(1)
+		}
+		if res != "" {
+			r.fail("render-panic", c, "String or Dump panicked")
+		}
+	}
+	if single != "" {
+		f := splitWS(single)
+		switch {
+		case len(f) >= 2 && (f[0] == "S" || f[0] == "H"):
+			k, _ := strconv.Atoi(f[1])
+			render(build(k, f[2:]), single)
+		case len(f) == 2 && f[0] == "SR":
+			if o := readOnce(oneChunk(unhex(f[1]))); o.kind >= 0 {
+				render(o.p, single)
+			}
+		case len(f) == 2 && f[0] == "SZ":
+			k, _ := strconv.Atoi(f[1])
+			render(zeroPacket(k), single)
+		}
+		return
+	}
+	for k := 0; k < 16; k++ {
+		render(zeroPacket(k), "SZ "+strconv.Itoa(k))
+		render(newPacket(k), "S "+strconv.Itoa(k))
+		r.eval("zero", true, "zero"+strconv.Itoa(k))
+	}
+	// all 256 values of each rendered byte
+	for b := 0; b < 256; b++ {
+		func() {
+			defer func() {
+				if e := recover(); e != nil {
+					r.fail("render-byte-panic", "byte "+strconv.Itoa(b), fmt.Sprint(e))
+				}
+			}()
+			_ = mq.VerifFirstByteString(byte(b))
+			_ = mq.VerifConnectFlagsString(byte(b))
+			_ = mq.VerifConnAckFlagsString(byte(b))
+			_ = mq.NewTopicFilter("a", mq.Opt(b)).String()
+			_ = mq.ReasonCode(b).String()
+			// through packets decoded from the wire
+			for _, f := range [][]byte{{byte(b), 0}, {0x20, 3, byte(b), byte(b), 0}, {0x10, 13, 0, 4, 'M', 'Q', 'T', 'T', 5, byte(b) &^ 4, 0, 0, 0, 0, 0},
+				{0x82, 7, 0, 1, 0, 0, 1, 'a', byte(b)}, {0xe0, 1, byte(b)}, {0x50, 3, 0, 1, byte(b)}} {
+				if o := readOnce(oneChunk(f)); o.kind >= 0 {
+					render(o.p, "SR "+hexs(f))
+				}
+			}
+		}()
+	}
+	r.evalN("byte-sweep", 256*11, 256*11-11)
+	// setter histories
+	for i := 0; i < n; i++ {
+		k := g.kind()
+		g.big = false
+		cs := g.calls(k, 1+g.pick(8))
+		c := "S " + strconv.Itoa(k) + sp(cs)
+		render(build(k, cs), c)
+		r.eval("history", true, c)
+	}
+	// successful decodes of hostile bytes
+	g.hostileFrames(n, func(f []byte) {
+		o := readOnce(oneChunk(f))
+		if o.kind >= 0 {
+			render(o.p, "SR "+hexs(f))
+			r.eval("decoded", true, hexs(f))
+		}
+		// a failed UnmarshalBinary leaves a partly filled packet: still renderable
+		_, hl := splitFrame(f)
+		if hl > 0 && hl <= len(f) {
+			p := zeroPacket(int(f[0] >> 4))
+			func() {
+				defer func() { recover() }()
+				p.UnmarshalBinary(f[hl:])
+			}()
+			render(p, fmt.Sprintf("U %d z %s + render", f[0]>>4, hexs(f[hl:])))
+		}
+	})
+	r.sample(map[string]string{"case": "SR 100d00044d5154540504000000000000", "check": "String and Dump return"})
 }
